@@ -53,6 +53,9 @@ pub fn evaluate(cfg: &Cfg, out: &RunOut, truth: Option<&Truth>, stable_path: boo
         return fails;
     }
     let mut fail = |p: &str, m: String| { if fails.len() < 12 { fails.push(format!("{p}:{m}")); } };
+    for m in &out.stamp_fails {
+        fail("C01", format!("a_probe_is_stamped_with_a_time_other_than_when_it_was_handed_to_the_network:{m}"));
+    }
     let first = cfg.first_ttl;
     let mut cur = RoundTruth { start: out.t0, ..Default::default() };
     let mut round_idx = 0usize;
